@@ -622,11 +622,21 @@ def run_pool(tasks: list[dict], workers: int = 16, backstop_s: float = 60.0, fn=
     out: list[Optional[dict]] = [None] * len(tasks)
     with ctx.Pool(processes=min(workers, max(1, len(tasks))), maxtasksperchild=200) as pool:
         pending = [(i, pool.apply_async(fn, (t,))) for i, t in enumerate(tasks)]
+        killed = 0
+        nproc = min(workers, max(1, len(tasks)))
         for i, fut in pending:
+            # a worker that never comes back keeps its pool process: once half of the processes are lost to such
+            # tasks the rest of the queue would crawl through one back-stop after the other — what has already come
+            # back is collected, the others are reported as not run (the killed ones carry the verdict)
+            exhausted = killed >= max(3, nproc // 2)
             try:
-                out[i] = fut.get(timeout=float(tasks[i].get("cap_s", 5.0)) + backstop_s)
+                out[i] = fut.get(timeout=1.0 if exhausted else float(tasks[i].get("cap_s", 5.0)) + backstop_s)
             except mp.TimeoutError:
-                out[i] = {"id": tasks[i].get("id"), "status": "killed"}
+                if exhausted:
+                    out[i] = {"id": tasks[i].get("id"), "status": "not_run:pool_exhausted"}
+                else:
+                    killed += 1
+                    out[i] = {"id": tasks[i].get("id"), "status": "killed"}
             except Exception as e:  # noqa
                 out[i] = {"id": tasks[i].get("id"), "status": f"worker_error:{type(e).__name__}:{e}"}
         pool.terminate()
